@@ -578,6 +578,9 @@ def run_property(prop, tier, seed, only=None):
             if conn.poll(0.02):
                 try:
                     results[sc.name].append(conn.recv())
+                    if os.environ.get("VERIF_STOP_AT_FIRST_VIOLATION") and results[sc.name][-1].get("violation"):
+                        # screening mode (tools/reeval_seeded.py): one violation answers the question, skip what has not started
+                        pending = []
                 except EOFError:
                     results[sc.name].append(
                         dict(Stats().as_dict(), harness_error="worker died (EOF)")
